@@ -186,7 +186,7 @@ fn calculate_selection<'a>(
                     })
                     .collect();
 
-                if let Some((selection_id, selection, _variant)) = variant_selections.first() {
+                if let Some((selection_id, _selection, _variant)) = variant_selections.first() {
                     let mut variant_struct_name_str =
                         full_path_prefix(*selection_id, context.query);
                     variant_struct_name_str.reserve(2 + variant_name_str.len());
@@ -219,7 +219,7 @@ fn calculate_selection<'a>(
                         }
                     }
 
-                    for (_selection_id, _selection, variant_selection) in variant_selections {
+                    for (_selection_id, selection, variant_selection) in variant_selections {
                         match variant_selection {
                             VariantSelection::InlineFragment(_) => {
                                 calculate_selection(
